@@ -1774,8 +1774,12 @@ class Entity(Instance):
         # follows the order of instantiation (and not the hash seed)
         extern_libraries = {}
 
-        for entity in self._sub_entities:
-            assert isinstance(entity, EntityInst)
+        for entity in self._instances:
+            # consider all instantiated entities (self._sub_entities
+            # does not contain the extern ones)
+            if not isinstance(entity, EntityInst):
+                continue
+
             path = entity._entity.path()
             if path is not None and path != "work":
                 lib_name = path.split(".")[0]
